@@ -279,8 +279,8 @@ func realWalk(v *walkView, ws *WalkScn, blocks []*commonmark.RootBlock, histCap 
 	var sameOpts *commonmark.WalkOptions
 	depth, nestedCnt := 0, 0
 	nested := func(c *commonmark.Cursor, before walkEvent) {
-		if !ws.Reentrant || len(blocks) == 0 {
-			return
+		if !ws.Reentrant || len(blocks) == 0 || obs.NestedWalks >= 150 {
+			return // at most 150 nested walks per walk: enough to overlap every kind of frame
 		}
 		// a complete nested walk over another block, with its own callbacks
 		obs.NestedWalks++
